@@ -167,7 +167,13 @@ pub fn lexical_successor(k: &[u8]) -> Vec<u8> {
     v
 }
 
+/// Set when a case resolved a `KeySpec::Long`; the engine turns it into a class label of the case.
+pub static LONG_KEY_SEEN: std::sync::atomic::AtomicBool = std::sync::atomic::AtomicBool::new(false);
+
 pub fn resolve_keys(specs: &[KeySpec]) -> Vec<Vec<u8>> {
+    if specs.iter().any(|s| matches!(s, KeySpec::Long(..))) {
+        LONG_KEY_SEEN.store(true, std::sync::atomic::Ordering::Relaxed);
+    }
     let mut out: Vec<Vec<u8>> = Vec::with_capacity(specs.len());
     for (i, s) in specs.iter().enumerate() {
         let k = match s {
